@@ -27,6 +27,16 @@ typedef double f64;
 #define LL2C_DEFINT(N) typedef unsigned __CPROVER_bitvector[N] u##N; typedef signed __CPROVER_bitvector[N] s##N;
 #endif
 
+/* address of a pointer for alignment questions: CBMC places every object at an aligned base address, which would make every
+ * "pointer is N-byte aligned" obligation trivially true; an uninterpreted per-object skew makes the residue of an object's base
+ * arbitrary unless a contract (aligned load/store forms) or the declaration (alignas locals) constrains it. */
+#ifdef LL2C_NATIVE
+#define LL_ADDR(p) ((u64)(p))
+#else
+u64 __CPROVER_uninterpreted_objskew(u64);
+#define LL_ADDR(p) ((u64)(p) + (__CPROVER_uninterpreted_objskew((u64)__CPROVER_POINTER_OBJECT(p)) & 63))
+#endif
+
 #define LL_DEFVEC(N, T, AL) typedef struct v##N##T { T e[N]; } __attribute__((aligned(AL))) v##N##T;
 LL_DEFVEC(2, u8, 2) LL_DEFVEC(4, u8, 4) LL_DEFVEC(8, u8, 8) LL_DEFVEC(16, u8, 16) LL_DEFVEC(32, u8, 32) LL_DEFVEC(64, u8, 64)
 LL_DEFVEC(1, u16, 2) LL_DEFVEC(2, u16, 4) LL_DEFVEC(4, u16, 8) LL_DEFVEC(8, u16, 16) LL_DEFVEC(16, u16, 32) LL_DEFVEC(32, u16, 64)
